@@ -13,3 +13,10 @@ pub use chooser::{enumerate, Chooser};
 pub use ctx::{Ctx, Opts, Out, Tier};
 pub use hash::H64;
 pub use json::J;
+
+/// RLIMIT_STACK as seen by this process, in KiB (recorded in the evidence).
+pub fn stack_limit_kib() -> u64 {
+    let mut rl = libc::rlimit { rlim_cur: 0, rlim_max: 0 };
+    unsafe { libc::getrlimit(libc::RLIMIT_STACK, &mut rl) };
+    rl.rlim_cur / 1024
+}
